@@ -20,6 +20,9 @@ int    __sym_is_symbolic(double d);
 void   __sym_note(const char* msg);
 void   __sym_label(const char* msg);                     // appended to the configuration key of this path
 double __sym_new_positive(const char* name);             // fresh solver variable with x > 0, registered for syntactic sign reasoning (sums/products/quotients of positives are positive without a solver call)
+double __sym_uniform01(void);                            // next value of the symbolic uniform stream: fresh u_k in [0,1) (same u_k again after a rewind)
+void   __sym_uniform_rewind(void);                       // restart the symbolic uniform stream: the next draws are u_0, u_1, ... again ("the same random stream")
+int    __sym_uniform_count(void);                        // number of draws since the last rewind
 void   __sym_watchdog(double cpu_seconds, const char* msg); // termination claim: this path must finish within the CPU time (0 disarms); otherwise it FAILs
 double __sym_concretize(double d);                       // model value of a term on this path (used only for reporting)
 #ifdef __cplusplus
